@@ -45,6 +45,10 @@ def main():
     for f in ("patch.diff", "demo.py", "notes.md"):
         if (src / f).exists():
             shutil.copy(src / f, dst / f)
+    # a demo that asserts it was imported from its author's own scratch worktree would fail in mine for that reason alone
+    import re
+    dp = dst / "demo.py"
+    dp.write_text(re.sub(r"(?m)^(\s*)assert [^\n]*resonaate\.__file__[^\n]*$", r"\1pass  # (path assertion of the author's worktree removed)", dp.read_text()))
     wt = Path(f"/tmp/seedchk-{name}-{os.getpid()}")
     meta = {"property": pid, "name": name, "ran": []}
     rc, out = sh(f"git -C /repo worktree add --detach {wt} HEAD")
